@@ -10,4 +10,5 @@ INVARIANT LeapDay
 INVARIANT LastDay
 INVARIANT DateTextRoundTrip
 INVARIANT CompactRoundTrip
+INVARIANT Rollover
 CHECK_DEADLOCK FALSE
